@@ -115,10 +115,36 @@ def detect(name, props):
     return results
 
 
-if __name__ == "__main__":
+def _main():
+    if sys.argv[1] == "detect-all":
+        detect_all(sys.argv[2:])
+        sys.exit(0)
     if sys.argv[1] == "verify":
         rep, ok = verify(sys.argv[2], sys.argv[3] if len(sys.argv) > 3 else None)
         sys.exit(0 if ok else 1)
     if sys.argv[1] == "detect":
         r = detect(sys.argv[2], sys.argv[3:])
         sys.exit(0)
+
+
+def detect_all(names=None):
+    """run the owning property's quick check (plus any extra ids given in meta['also_try']) on every seeded change and record the outcome"""
+    base = os.path.join(VERIF, "seeded")
+    for name in sorted(os.listdir(base)):
+        if names and name not in names:
+            continue
+        mp = os.path.join(base, name, "meta.json")
+        meta = json.load(open(mp))
+        props = [meta["property"]] + meta.get("also_try", [])
+        print("==", name)
+        r = detect(name, props)
+        if r is None:
+            continue
+        meta["checked_with"] = r
+        meta["detected_by"] = sorted(p for p, v in r.items() if v["exit"] == 1 and v["violations"])
+        meta["what_was_run"] = "py/seedtool.py detect: patch.diff applied to a scratch copy of /repo HEAD under /dev/shm, `VERIF_REPO=<copy> ./vf check <ID>` (quick tier, seed 1), copy removed"
+        json.dump(meta, open(mp, "w"), indent=1)
+
+
+if __name__ == "__main__":
+    _main()
